@@ -87,7 +87,7 @@ func main() {
 	case "check":
 		os.Exit(runCheck(os.Args[2:]))
 	case "load":
-		p, err := load.Load(load.Options{})
+		p, err := load.Load(load.Options{Repo: os.Getenv("JTVERIF_REPO")})
 		if err != nil {
 			fmt.Println("load error:", err)
 			os.Exit(2)
@@ -96,14 +96,14 @@ func main() {
 			fmt.Println(pk.PkgPath, len(pk.GoFiles))
 		}
 	case "c07list":
-		p, err := load.Load(load.Options{})
+		p, err := load.Load(load.Options{Repo: os.Getenv("JTVERIF_REPO")})
 		if err != nil {
 			fmt.Println("load error:", err)
 			os.Exit(2)
 		}
 		checks.C07ListDebug(p, os.Args[2])
 	case "c07dump":
-		p, err := load.Load(load.Options{})
+		p, err := load.Load(load.Options{Repo: os.Getenv("JTVERIF_REPO")})
 		if err != nil {
 			fmt.Println("load error:", err)
 			os.Exit(2)
@@ -147,7 +147,7 @@ func main() {
 			fmt.Println("UNDECIDED:", u)
 		}
 	case "seq":
-		p, err := load.Load(load.Options{})
+		p, err := load.Load(load.Options{Repo: os.Getenv("JTVERIF_REPO")})
 		if err != nil {
 			fmt.Println("load error:", err)
 			os.Exit(2)
@@ -162,7 +162,7 @@ func main() {
 		}
 		fmt.Printf("obligations=%d undecided=%v wall=%.1fs\n", len(res.Obls), res.Undecided, res.Wall)
 	case "layout":
-		p, err := load.Load(load.Options{})
+		p, err := load.Load(load.Options{Repo: os.Getenv("JTVERIF_REPO")})
 		if err != nil {
 			fmt.Println("load error:", err)
 			os.Exit(2)
@@ -205,7 +205,7 @@ func main() {
 			}
 		}
 	case "e1all":
-		p, err := load.Load(load.Options{})
+		p, err := load.Load(load.Options{Repo: os.Getenv("JTVERIF_REPO")})
 		if err != nil {
 			fmt.Println("load error:", err)
 			os.Exit(2)
